@@ -16,4 +16,4 @@ Extraction "../ocaml/c16/model.ml"
   z_add z_mul z_opp z_div_eucl z_ltb z_eqb
   visit visit_insts visit_bounds render comp_xform x_apply half get_parsed_glyph table_load
   contours expand contour_paths path_of_rotation rotl
-  encode_points encoding_legal spec_transform.
+  encode_points encoding_legal spec_transform spec_xform supported x_abs.
